@@ -599,6 +599,13 @@ struct ReaderState
   std::vector<CollRec> colls;
   uint64_t cursor = 0;
   std::map<std::pair<int, std::string>, AttrState> attr;
+  // per stream: the chain of delta intervals handed to this reader (every MetricData, with or without points)
+  struct Chain
+  {
+    bool has = false, off = false;
+    int64_t prev_end = 0;
+  };
+  std::map<int, Chain> chain;
 };
 
 struct SeqCase
@@ -886,6 +893,30 @@ struct SeqCase
       }
       if (g->points.empty())
         R.count("delta_metricdata_without_points");
+      // Stream level: the intervals handed to a delta reader for one stream - each MetricData, with or without
+      // points - abut strictly: the first starts at SDK start, every next one where the previous one ended.  (An
+      // idle collection either hands out nothing and does not advance, or hands out an interval without points;
+      // advancing silently leaves a stretch of time that no interval covers - seeded change C06-w6-1.)
+      {
+        ReaderState::Chain &ch = st.chain[si];
+        if (gm.size() > 1)
+          ch.off = true;  // one stream in several MetricData of one collection: no single chain to follow
+        if (!ch.off)
+        {
+          bool okc = ch.has ? g->start_ns == ch.prev_end : is_sdk_start(g->start_ns);
+          R.count(ch.has ? "delta_stream_chain_checked" : "delta_stream_chain_first_checked");
+          if (!okc)
+          {
+            R.violation("delta-abutting", cls_t + ":stream-interval-chain",
+                        witness(where + "interval [" + std::to_string(g->start_ns) + "," + std::to_string(g->end_ns) + "] " +
+                                (ch.has ? "but the previous interval handed to this reader for the stream ended at " + std::to_string(ch.prev_end)
+                                        : "is the first handed to this reader for the stream and does not start at the SDK start")));
+            ch.off = true;
+          }
+          ch.has      = true;
+          ch.prev_end = g->end_ns;
+        }
+      }
       std::set<std::string> attrs;
       for (auto &p : g->points)
         attrs.insert(p.attrs);
